@@ -639,6 +639,7 @@ def site_rule(ctx, world, crate_names, rule, fn_filter=None, floor=None, report_
     # reviewed sites whose function no longer has them: candidates for "moved into a private helper" (see moved_site)
     stale = {k for k in table if k not in all_keys and not table[k].get("requires")}
     callers = None
+    moved_owner, moved_used = {}, {}
     for fn, s, key in inv:
         seen_keys.add(key)
         r = auto_discharge(world, fn, s, const_only)
@@ -676,11 +677,26 @@ def site_rule(ctx, world, crate_names, rule, fn_filter=None, floor=None, report_
                 for a_, bs_ in call_graph(world).items():
                     for b_ in bs_:
                         callers.setdefault(key_path(b_), set()).add(key_path(a_))
-            moved = moved_site(world, fn, key, stale, callers)
+            # a helper may gather the reviewed sites of several callers (`algorithm()`'s `&s[..i]` and `key_name()`'s `&s[i + 1..]` in one
+            # `split_at_colon`): the stale keys it stands for stay available to the other sites of the SAME helper, up to their number
+            kp_ = key_path(fn["path"])
+            pool = stale | {k_ for k_, owner in moved_owner.items() if owner == kp_}
+            moved = moved_site(world, fn, key, pool, callers)
+            if moved:
+                kd_ = tuple(key.split("|", 2)[1:3])
+                kd_ = (kd_[0], kd_[1].split("#")[0])
+                total_ = len({k_ for k_ in pool if k_.split("|")[1] == kd_[0] and k_.split("|", 2)[2].split("#")[0] == kd_[1]
+                              and any(k_.split("|")[0] == c_ for c_ in callers.get(kp_, ()))})
+                used_ = moved_used.get((kp_, kd_), 0)
+                if used_ >= total_:
+                    moved = None
+                else:
+                    moved_used[(kp_, kd_)] = used_ + 1
             if moved:
                 n_table += 1
                 for k_ in moved:
                     stale.discard(k_)
+                    moved_owner[k_] = kp_
                 e = table[moved[0]]
                 by_cat[e["cat"]] = by_cat.get(e["cat"], 0) + 1
                 ctx.ok(rule, f"{rule}:{key}", where, f"{e['cat']}: reviewed site moved into this private helper, whose only callers are the reviewed function(s) "
